@@ -122,6 +122,8 @@ def verify_function(world, qual, timeout_ms=10000):
     discharge(ex.obls, timeout_ms)
     # one retry with a tripled budget for what stayed undecided (solver budgets must not flip verdicts under load)
     for ob in ex.obls:
+        if os.environ.get('PYVC_NO_RETRY'):
+            break        # development runs against seeded changes: an undecided obligation is already the signal
         if ob.verdict == 'undecided' and not getattr(ob, 'known_budget', False):
             first = ob.seconds
             ob.verdict = None
